@@ -3,6 +3,7 @@ mod common;
 mod c19;
 mod c20;
 mod c04;
+mod c17;
 mod runner;
 
 use std::path::PathBuf;
@@ -44,6 +45,7 @@ fn main() {
         "c19" => c19::run(&args),
         "c20" => c20::run(&args),
         "c04" => c04::run(&args),
+        "c17" => c17::run(&args),
         "run" => {
             // vh run file.bas [stdin-file]: prints the outcome of one program (debugging aid, used by replays)
             let src = std::fs::read_to_string(&args.extra[0]).unwrap();
